@@ -74,15 +74,57 @@ def all_queries(nodes, stopset=(), filtset=(), maxlevel=None, resolver=True):
             q["walk[%d,%d]" % (i, j)] = _safe(walk)
             q["common[%d,%d]" % (i, j)] = idx_seq(nodes, util.commonancestors(nd, other))
         if resolver:
-            r = Resolver("i")
-            rr = Resolver("i", relax=True)
+            attr = "i" if resolver is True else resolver
+            r = Resolver(attr)
+            rr = Resolver(attr, relax=True)
             sep = nd.separator
-            for path in ("*", "**", "*" + sep + "*", "..", ".." + sep + "*", "%d" % ((i + 1) % n), sep + "0" + sep + "*"):
+            first = str(getattr(nodes[(i + 1) % n], attr))
+            for path in ("*", "**", "*" + sep + "*", "..", ".." + sep + "*", first, sep + str(getattr(nd.root, attr)) + sep + "*", "**" + sep + first, "**" + sep + ".."):
                 q["glob[%d,%s]" % (i, path)] = _safe(lambda: idx_seq(nodes, r.glob(nd, path)))
                 q["globr[%d,%s]" % (i, path)] = _safe(lambda: idx_seq(nodes, rr.glob(nd, path)))
                 if "*" not in path:
                     q["get[%d,%s]" % (i, path)] = _safe(lambda: _x(nodes, r.get(nd, path)))
             for j, other in enumerate(nodes):
-                ap = sep + sep.join(str(x.i) for x in other.path)
+                ap = sep + sep.join(str(getattr(x, attr)) for x in other.path)
                 q["getabs[%d,%d]" % (i, j)] = _safe(lambda: _x(nodes, rr.get(nd, ap)))
     return q
+
+
+def extended_queries(nodes, names):
+    """search functions, RenderTree text, exporters - on nodes that carry .name"""
+    import warnings
+
+    from anytree import find, find_by_attr, findall, findall_by_attr
+    from anytree.exporter import DictExporter, DotExporter, MermaidExporter, UniqueDotExporter
+    from anytree.search import CountError
+
+    q = {}
+    for i, nd in enumerate(nodes):
+        q["findall[%d]" % i] = idx_seq(nodes, findall(nd, filter_=lambda x: index_of(nodes, x) % 2 == 0))
+        q["findall_stop[%d]" % i] = idx_seq(nodes, findall(nd, stop=lambda x: index_of(nodes, x) == 2, maxlevel=3))
+        try:
+            q["find[%d]" % i] = _x(nodes, find(nd, filter_=lambda x: index_of(nodes, x) == 1))
+        except CountError:
+            q["find[%d]" % i] = "CountError"
+        q["findall_by_attr[%d]" % i] = idx_seq(nodes, findall_by_attr(nd, names[0]))
+        try:
+            q["find_by_attr[%d]" % i] = _x(nodes, find_by_attr(nd, names[-1]))
+        except CountError:
+            q["find_by_attr[%d]" % i] = "CountError"
+        try:
+            findall(nd, mincount=len(nodes) + 1)
+            q["count[%d]" % i] = "no error"
+        except CountError:
+            q["count[%d]" % i] = "CountError"
+        q["by_attr[%d]" % i] = RenderTree(nd).by_attr("name")
+        if hasattr(nd, "__dict__"):
+            q["dict[%d]" % i] = _dict_shape(DictExporter(attriter=lambda av: [(k, v) for k, v in av if k == "name"]).export(nd))
+        q["dot[%d]" % i] = list(DotExporter(nd))
+        q["dot_r[%d]" % i] = list(DotExporter(nd, filter_=lambda x: index_of(nodes, x) != 1, stop=lambda x: index_of(nodes, x) == 3, maxlevel=2))
+        q["udot[%d]" % i] = list(UniqueDotExporter(nd))
+        q["mermaid[%d]" % i] = list(MermaidExporter(nd, maxlevel=3))
+    return q
+
+
+def _dict_shape(d):
+    return (d.get("name"), [_dict_shape(c) for c in d.get("children", [])])
